@@ -101,12 +101,17 @@ def _case(args):
             want_ctype = want_t.content_type
             path = os.path.join(d, "t%d.pt" % variant)
             open(path, "wb").write(data)
-            for cls, arg in ((PageTemplate, data), (PageTemplateFile, path)):
+            # (the `encoding` option is about byte-string VALUES inserted at render time; the template's own bytes are
+            # decoded by mark / declaration / meta / default_encoding whatever it says)
+            for cls, arg, extra in ((PageTemplate, data, {}), (PageTemplateFile, path, {}),
+                                    (PageTemplate, data, {"encoding": "cp1251" if variant % 2 else "ascii"}),
+                                    (PageTemplateFile, path, {"encoding": "ascii" if variant % 2 else "latin-1"})):
                 n += 1
-                label = "%s(bom=%s, decl=%s, meta=%s, default=%s; document encoded as %s)" % (
-                    cls.__name__, rec["bom"], rec["decl"], rec["meta"], rec["dflt"], enc)
+                label = "%s(bom=%s, decl=%s, meta=%s, default=%s%s; document encoded as %s)" % (
+                    cls.__name__, rec["bom"], rec["decl"], rec["meta"], rec["dflt"],
+                    ", encoding=%s" % extra["encoding"] if extra else "", enc)
                 try:
-                    t = cls(arg, default_encoding=rec["dflt"])
+                    t = cls(arg, default_encoding=rec["dflt"], **extra)
                     got = t(**kw)
                 except Exception as e:
                     out.append((label + ": raised %s: %s" % (type(e).__name__, str(e).splitlines()[:1]), dict(source=doc)))
